@@ -149,19 +149,17 @@ func runC01(c *run.Ctx) {
 	}
 
 	all := fragAll()
-	// layer 1: full alphabet, k<=2 (quick) / k<=3 (thorough) on named + subset specs, with DOM
-	k1 := 2
-	if !c.Quick() {
-		k1 = 3
-	}
 	both := append(append([]built{}, nb...), sb...)
-	Seqs(c, all, 0, k1, func(in []byte, _ []int) { eval(both, in, true) })
-	// layer 2: full alphabet k=3 (quick) / k=4 over core (thorough handled below), named specs
 	if c.Quick() {
+		// layer 1: full alphabet k<=2 on named + subset policies, with DOM; layer 2: k=3 on named, k=4 over the core
+		Seqs(c, all, 0, 2, func(in []byte, _ []int) { eval(both, in, true) })
 		Seqs(c, all, 3, 3, func(in []byte, _ []int) { eval(nb, in, false) })
 		Seqs(c, fragCore, 4, 4, func(in []byte, _ []int) { eval(nb[:7], in, false) })
 	} else {
-		Seqs(c, all, 4, 4, func(in []byte, _ []int) { eval(nb[:8], in, false) })
+		// thorough: k<=2 on named + every <=3-subset policy with DOM; k=3 on named + <=2-subsets; k=4 over the core with DOM; k=5 over the core
+		Seqs(c, all, 0, 2, func(in []byte, _ []int) { eval(both, in, true) })
+		small := append(append([]built{}, nb...), buildAll(subsetSpecs(2))...)
+		Seqs(c, all, 3, 3, func(in []byte, _ []int) { eval(small, in, false) })
 		Seqs(c, fragCore, 4, 4, func(in []byte, _ []int) { eval(nb, in, true) })
 		Seqs(c, fragCore, 5, 5, func(in []byte, _ []int) { eval(nb[:6], in, false) })
 	}
@@ -171,6 +169,9 @@ func runC01(c *run.Ctx) {
 		nbytes = 6
 	}
 	bsSpecs := buildAll(specsByName("bpbr-comments", "everything-named", "ugc"))
+	if !c.Quick() {
+		bsSpecs = bsSpecs[:2]
+	}
 	BytesS(c, "bytes", byteAlpha, 1, nbytes, func(in []byte) { eval(bsSpecs, in, false) })
 	c.Notes["policies"] = float64(0)
 	if c.Shard == 0 {
